@@ -15,6 +15,8 @@ type verifLoop struct {
 	frames  []uint8 // type byte of every request frame seen
 	replies []uint8 // type byte of every reply frame
 	serving bool
+	// onRequest, if set, sees every complete request frame before the server does
+	onRequest func(frame []byte)
 }
 
 func (l *verifLoop) Write(p []byte) (int, error) {
@@ -28,6 +30,9 @@ func (l *verifLoop) Read(p []byte) (int, error) {
 			return 0, io.EOF
 		}
 		l.frames = append(l.frames, l.c2s[4])
+		if l.onRequest != nil {
+			l.onRequest(l.c2s)
+		}
 		w := &verifRecWriter{keep: true}
 		l.cs.t = &verifSegReader{data: l.c2s}
 		l.cs.r = w
